@@ -1032,11 +1032,135 @@ pub fn metric_var_tables(run: &Run) {
     run.observe_many(&all, &all);
 }
 
+
+// ---------------------------------------------------------------------------
+// (c6) skrifa `Axis::normalize(f32)`, the per-axis API: every axis of every bundled variable font and
+// of synthesised single-axis fonts, user coordinates on, between and far outside the stops incl.
+// non-integral values and magnitudes past 32768; exact reference, clamping, monotone, and agreement with
+// `AxisCollection::location` for the same single-axis input when the font has no avar table.
+// ---------------------------------------------------------------------------
+
+fn axis_user_values(min: f64, def: f64, max: f64) -> Vec<f32> {
+    let mut v: Vec<f64> = vec![min, def, max, (min + def) / 2.0, (def + max) / 2.0, def + (max - def) / 3.0, def - (def - min) / 3.0, def + (max - def) / 4.0, def + 0.5, def + 0.25, def - 0.5, max - 0.25, min + 0.5,
+        (def + max) / 2.0 + 0.5, min - 1.0, min - 0.5, max + 0.5, max + 1.0, 0.0, 32767.0, -32767.0, 32767.5, 32768.0, -32768.0, 40000.0, -40000.0, 65536.0, 70000.0, -70000.0, 1e9, -1e9, f32::MAX as f64, f32::MIN as f64, f32::MIN_POSITIVE as f64];
+    v.sort_by(|a, b| a.partial_cmp(b).unwrap());
+    let mut out: Vec<f32> = v.into_iter().map(|x| x as f32).collect();
+    out.dedup();
+    out
+}
+
+fn check_axis_normalize(font: &FontRef, what: &str) -> Result<Vec<(u32, i16)>, (String, String)> {
+    let axes = font.axes();
+    let has_avar = font.avar().is_ok();
+    let mut out = vec![];
+    for axis in axes.iter() {
+        let (min, def, max) = (axis.min_value() as f64, axis.default_value() as f64, axis.max_value() as f64);
+        let ctx = format!("{what}, axis {} ({min}, {def}, {max})", axis.tag());
+        let mut prev: Option<(f32, i16)> = None;
+        for c in axis_user_values(min, def, max) {
+            let got = axis.normalize(c).to_bits();
+            out.push((c.to_bits(), got));
+            // exact reference on the real number c
+            let x = (c as f64).clamp(min, max.max(min));
+            let exact = if x < def {
+                -(def - x) / (def - min)
+            } else if x > def {
+                (x - def) / (max - def)
+            } else {
+                0.0
+            };
+            let span = if x < def { def - min } else { max - def };
+            // user value rounded to 16.16, 16.16 division, F2Dot14 rounding: below one unit, more on a short span
+            let tol = 1.0 + if span > 0.0 { (16384.0 / 131072.0 / span).ceil() } else { 0.0 };
+            let diff = (got as f64 - exact * 16384.0).abs();
+            let id = |s: &str| format!("skrifa Axis::normalize {s}");
+            if (c as f64) <= min && min < def && got != -0x4000 {
+                return Err((id("does not clamp to -1 at or below the minimum"), format!("{ctx}: normalize({c}) = {}", got as f64 / 16384.0)));
+            }
+            if (c as f64) >= max && def < max && got != 0x4000 {
+                return Err((id("does not clamp to 1 at or above the maximum"), format!("{ctx}: normalize({c}) = {}", got as f64 / 16384.0)));
+            }
+            if c as f64 == def && got != 0 {
+                return Err((id("does not map the default to 0"), format!("{ctx}: normalize({c}) = {}", got as f64 / 16384.0)));
+            }
+            if diff > tol {
+                return Err((id("differs from the exact normalisation"), format!("{ctx}: normalize({c}) = {:.5}, exact {:.5}", got as f64 / 16384.0, exact)));
+            }
+            if let Some((pc, pg)) = prev {
+                if got < pg {
+                    return Err((id("is not monotone"), format!("{ctx}: normalize({pc}) = {pg} > normalize({c}) = {got}")));
+                }
+            }
+            prev = Some((c, got));
+            if !has_avar {
+                let loc = axes.location([(axis.tag(), c)]);
+                let l = loc.coords().get(axis.index()).map(|v| v.to_bits());
+                if l != Some(got) {
+                    return Err((
+                        "skrifa Axis::normalize disagrees with AxisCollection::location for the same single-axis input".to_string(),
+                        format!("{ctx}: normalize({c}) = {got}, location -> {:?}", l),
+                    ));
+                }
+            }
+        }
+    }
+    Ok(out)
+}
+
+pub fn axis_normalize(run: &Run) {
+    let mut fonts: Vec<(String, Vec<u8>)> = corpus_fonts().into_iter().filter(|(_, b)| FontRef::new(b).map(|f| f.fvar().is_ok()).unwrap_or(false)).collect();
+    let corpus = fonts.len();
+    for (mn, df, mx) in [(100, 400, 900), (-1000, 0, 1000), (0, 0, 1), (0, 1, 1), (1, 400, 1000), (-32768, 0, 32767), (50, 100, 200), (0, 0, 0)] {
+        fonts.push((format!("synthesised axis ({mn}, {df}, {mx})"), var_font_axis(mn << 16, df << 16, mx << 16)));
+    }
+    fonts.push(("synthesised axis (0.5, 1.25, 3.75)".into(), var_font_axis(0x8000, 0x14000, 0x3C000)));
+    run.bound("c6.axis_normalize", json!({"corpus_fonts_with_fvar": corpus, "synthesised_single_axis_fonts": fonts.len() - corpus,
+        "user_values_per_axis": "min, default, max, midpoints, thirds, quarters, +-0.25/0.5 off the stops, 1 and 0.5 outside, 0, +-32767, 32767.5, +-32768, +-40000, 65536, +-70000, +-1e9, f32::MAX/MIN, f32::MIN_POSITIVE",
+        "oracles": ["exact value within one F2Dot14 unit (more on spans below 1)", "-1/0/1 at and beyond the stops", "monotone", "equal to AxisCollection::location when there is no avar"]}));
+    let mut all = HashSet::new();
+    let mut non = HashSet::new();
+    let mut n = 0u64;
+    let mut naxes = 0u64;
+    for (name, bytes) in &fonts {
+        let Ok(font) = FontRef::new(bytes) else { continue };
+        naxes += font.axes().len() as u64;
+        let case = json!({"kind":"axis_normalize","font":name});
+        match guard(|| check_axis_normalize(&font, name)) {
+            Ok(Ok(v)) => {
+                n += v.len() as u64;
+                for (c, g) in v {
+                    let d = digest_of(&("axisnorm", name, c, g));
+                    all.insert(d);
+                    if g != 0 {
+                        non.insert(d);
+                    }
+                }
+            }
+            Ok(Err((id, details))) => run.violation(&id, &details, case),
+            Err(p) => run.violation(&format!("skrifa Axis::normalize panic: {} in {}", p.kind(), p.site()), &p.message, case),
+        }
+    }
+    run.evals(n);
+    run.trans(n);
+    run.count("c6.axes", naxes);
+    run.count("c6.evaluations", n);
+    run.observe_many(&all, &non);
+}
+
+fn var_font_axis(min: i32, def: i32, max: i32) -> Vec<u8> {
+    use write_fonts::tables::fvar::{AxisInstanceArrays, Fvar, VariationAxisRecord};
+    let fvar = Fvar::new(AxisInstanceArrays::new(vec![VariationAxisRecord::new(TAG_A, Fixed::from_bits(min), Fixed::from_bits(def), Fixed::from_bits(max), 0, NameId::new(256))], vec![]));
+    let mut b = write_fonts::FontBuilder::new();
+    b.add_table(&fvar).unwrap();
+    b.build()
+}
+
 pub fn replay(run: &Run, case: &Value) {
     match case["kind"].as_str().unwrap_or("") {
         "metrics_gvar" => gvar_metrics(run),
         "norm_two_axes" => multi_axis(run),
         "metrics_mvar" => mvar_metrics(run),
+        "axis_normalize" => axis_normalize(run),
         "metric_var_table" => match check_metric_var_table(case["vertical"].as_bool().unwrap_or(false), case["present"].as_u64().unwrap_or(0) as u32, case["truncated"].as_bool().unwrap_or(false)) {
             Ok(_) => println!("replay: every accessor answers from its own map"),
             Err((id, d)) => run.violation(&id, &d, case.clone()),
